@@ -3,9 +3,22 @@
 (* most MaxPos positions alive, ids up to MaxId.  Sqrt prices live on the     *)
 (* integer grid SqrtOf(t) = 2*(t - MinT + 1): even = exactly on a tick, odd =  *)
 (* inside the bucket above it.                                                *)
-EXTENDS CL, TLC
+(*                                                                            *)
+(* Two uses:                                                                  *)
+(*  - MCSpec (mc cfg): exhaustive check of the C07 invariants.  Swaps are      *)
+(*    over-approximated: the price may stop anywhere in its direction.        *)
+(*  - GenSpec (gen cfg): behaviour generator for the spec -> impl replay on a *)
+(*    real pool (harness/app/cl/replay_test.go).  Its steps are a subset of   *)
+(*    MCSpec's (so the invariants hold on them) restricted to what a price-    *)
+(*    limited swap of the real keeper can do, plus calls the code must refuse  *)
+(*    (state unchanged, ok = 0).  `hist` is outside the VIEW: every transition *)
+(*    of the reduced graph is printed once, with a shortest path to it.       *)
+EXTENDS CL, TLC, Json
 
-CONSTANTS MinT, MaxT, Liqs, Owners, MaxPos, MaxId
+CONSTANTS MinT, MaxT, Liqs, Owners, MaxPos, MaxId,
+          Creators     \* owners that create positions (a subset of Owners; the others receive theirs by transfer)
+
+VARIABLE hist     \* the calls made so far (see Op below)
 
 MinTVal == -1
 IntAdd(a, b) == a + b
@@ -19,17 +32,30 @@ Sqrts == SqrtOf(MinT)..SqrtOf(MaxT)
 
 PriceAt(s) == [tick |-> TickOfSqrt(s), sqrt |-> s, curLo |-> SqrtOf(TickOfSqrt(s)), curHi |-> SqrtOf(TickOfSqrt(s) + 1)]
 
-MCInit == cl = Empty
+View == cl
 
-MCCreate == \E own \in Owners, lo \in Ticks, hi \in Ticks, dl \in Liqs, s0 \in Sqrts :
+\* one call: <<kind, by, id, lo, hi, dl, s, down, to, ok, nt>>, all integers (compact JSON)
+\*   kind 1 create (id = the id the model gives the new position, s = initial grid point, first position only)
+\*        2 withdraw  3 add (id = old position, to = id of the new one)  4 transfer  5 swap (s = target grid
+\*        point, nt = model tick afterwards);  by = acting owner;  ok = 1 the code must accept / 0 must refuse
+KCreate == 1  KWithdraw == 2  KAdd == 3  KTransfer == 4  KSwap == 5
+Op(kind, by, id, lo, hi, dl, s, down, to, ok, nt) ==
+    <<kind, by, id, lo, hi, dl, s, IF down THEN 1 ELSE 0, to, IF ok THEN 1 ELSE 0, nt>>
+Rec(e) == hist' = Append(hist, e)
+
+MCInit == cl = Empty /\ hist = <<>>
+
+MCCreate == \E own \in Creators, lo \in Ticks, hi \in Ticks, dl \in Liqs, s0 \in Sqrts :
     /\ lo < hi
     /\ Cardinality(Ids(cl)) < MaxPos /\ cl.maxId < MaxId
     /\ (Ids(cl) # {} => s0 = SqrtOf(MinT))          \* initial price only matters for the first position
     /\ cl' = ApplyCreate(cl, cl.maxId + 1, own, lo, hi, dl, SqrtOf(lo), SqrtOf(hi), PriceAt(s0))
+    /\ Rec(Op(KCreate, own, cl.maxId + 1, lo, hi, dl, IF Ids(cl) = {} THEN s0 ELSE 0, FALSE, 0, TRUE, 0))
 
 MCWithdraw == \E id \in Ids(cl), dl \in Liqs :
     /\ WithdrawOK(cl, id, dl)
     /\ cl' = ApplyWithdraw(cl, id, dl)
+    /\ Rec(Op(KWithdraw, cl.pos[id].own, id, 0, 0, dl, 0, FALSE, 0, TRUE, 0))
 
 \* add-to-position = withdraw everything, then create a new position with more liquidity;
 \* refused when it is the last position of the pool
@@ -38,26 +64,95 @@ MCAdd == \E id \in Ids(cl), dl \in Liqs :
     /\ LET p == cl.pos[id]
            S1 == ApplyWithdraw(cl, id, p.liq)
        IN  cl' = ApplyCreate(S1, cl.maxId + 1, p.own, p.lo, p.hi, p.liq + dl, SqrtOf(p.lo), SqrtOf(p.hi), PriceAt(2))
+    /\ Rec(Op(KAdd, cl.pos[id].own, id, 0, 0, dl, 0, FALSE, cl.maxId + 1, TRUE, 0))
 
+\* (a transfer to oneself leaves the state as it is; the message is refused by its basic validation)
 MCTransfer == \E id \in Ids(cl), to \in Owners :
     /\ Cardinality(Ids(cl)) > 1
     /\ cl' = ApplyTransfer(cl, id, to)
+    /\ Rec(Op(KTransfer, cl.pos[id].own, id, 0, 0, 0, 0, FALSE, to, to # cl.pos[id].own, 0))
 
 \* where a swap can stop: anywhere at or beyond the current price in its direction;
 \* a downward swap that stops exactly on an initialised tick t has crossed it (tick = t - 1),
 \* otherwise the tick is the bucket containing the price.
-MCSwap == \E down \in BOOLEAN, s \in Sqrts :
+SwapTick(down, s) ==
+    LET onInit == s % 2 = 0 /\ TickOfSqrt(s) \in DOMAIN cl.ticks
+    IN  IF down /\ onInit /\ (s < cl.sqrt \/ cl.tick = TickOfSqrt(s)) THEN TickOfSqrt(s) - 1
+        ELSE IF s = cl.sqrt THEN cl.tick ELSE TickOfSqrt(s)
+
+SwapTo(down, s) ==
     /\ Ids(cl) # {}
     /\ IF down THEN s <= cl.sqrt ELSE s >= cl.sqrt
-    /\ LET onInit == s % 2 = 0 /\ TickOfSqrt(s) \in DOMAIN cl.ticks
-           nt == IF down /\ onInit /\ (s < cl.sqrt \/ cl.tick = TickOfSqrt(s)) THEN TickOfSqrt(s) - 1
-                 ELSE IF s = cl.sqrt THEN cl.tick ELSE TickOfSqrt(s)
+    /\ LET nt == SwapTick(down, s)
        IN  /\ SwapOK(cl, down, nt, s)
            /\ nt >= MinT - 1 /\ nt <= MaxT
            /\ cl' = ApplySwap(cl, down, nt, s, SqrtOf(nt), SqrtOf(nt + 1))
+           /\ Rec(Op(KSwap, 0, 0, 0, 0, 0, s, down, 0, TRUE, nt))
+
+MCSwap == \E down \in BOOLEAN, s \in Sqrts : SwapTo(down, s)
 
 MCNext == MCCreate \/ MCWithdraw \/ MCAdd \/ MCTransfer \/ MCSwap
-MCSpec == MCInit /\ [][MCNext]_cl
+MCSpec == MCInit /\ [][MCNext]_<<cl, hist>>
 
 ImmutableStep == [][Immutable(cl, cl', {i \in Ids(cl) \cap Ids(cl') : cl'.pos[i].own # cl.pos[i].own})]_cl
+
+---------------------------------------------------------------------------
+(* behaviour generator *)
+
+\* What a swap of the real keeper with an ample input and the price limit on grid point s does
+\* (x/concentrated-liquidity/swaps.go computeOutAmtGivenIn): it walks from initialised tick to
+\* initialised tick - a stretch without liquidity is jumped at no cost - and needs a NEXT initialised
+\* tick in its direction at every step, the last one included: the limit cannot lie beyond the
+\* outermost initialised tick ("ran out of ticks").  A limit equal to the current price moves
+\* nothing, and a swap that pays nothing out (no liquidity anywhere on the way) is refused.
+Beyond(down, s) == IF down THEN \E t \in DOMAIN cl.ticks : SqrtOf(t) <= s
+                           ELSE \E t \in DOMAIN cl.ticks : SqrtOf(t) >= s
+Liquid(down, s) ==
+    LET a == IF down THEN s ELSE cl.sqrt
+        b == IF down THEN cl.sqrt ELSE s
+    IN  \E i \in Ids(cl) : SqrtOf(cl.pos[i].lo) < b /\ a < SqrtOf(cl.pos[i].hi)
+RealSwapOK(down, s) == s # cl.sqrt /\ Beyond(down, s) /\ Liquid(down, s)
+
+Refused(e) == cl' = cl /\ Rec(e)
+
+GenSwap == \E down \in BOOLEAN, s \in Sqrts :
+    /\ Ids(cl) # {}
+    /\ IF down THEN s <= cl.sqrt ELSE s >= cl.sqrt
+    /\ IF RealSwapOK(down, s) THEN SwapTo(down, s)
+       ELSE Refused(Op(KSwap, 0, 0, 0, 0, 0, s, down, 0, FALSE, cl.tick))
+
+Other(o) == IF \E x \in Owners : x # o THEN CHOOSE x \in Owners : x # o ELSE 0
+Somebody(o) == Other(o) # 0
+Stranger == Cardinality(Owners) + 1     \* an account that never owns anything (Owners = 1..n)
+
+\* calls the code must refuse: too much liquidity, somebody else's position, the last position of
+\* the pool added to or transferred
+GenRefused == \E id \in Ids(cl) :
+    LET p == cl.pos[id] single == Cardinality(Ids(cl)) = 1 IN
+    \/ \E dl \in Liqs : dl > p.liq /\ Refused(Op(KWithdraw, p.own, id, 0, 0, dl, 0, FALSE, 0, FALSE, 0))
+    \/ Somebody(p.own) /\ Refused(Op(KWithdraw, Other(p.own), id, 0, 0, 1, 0, FALSE, 0, FALSE, 0))
+    \/ single /\ Refused(Op(KAdd, p.own, id, 0, 0, 1, 0, FALSE, 0, FALSE, 0))
+    \/ Somebody(p.own) /\ Refused(Op(KAdd, Other(p.own), id, 0, 0, 1, 0, FALSE, 0, FALSE, 0))
+    \/ single /\ Somebody(p.own) /\ Refused(Op(KTransfer, p.own, id, 0, 0, 0, 0, FALSE, Other(p.own), FALSE, 0))
+    \/ Somebody(p.own) /\ Refused(Op(KTransfer, Other(p.own), id, 0, 0, 0, 0, FALSE, Stranger, FALSE, 0))
+
+GenNext == MCCreate \/ MCWithdraw \/ MCAdd \/ MCTransfer \/ GenSwap \/ GenRefused
+GenSpec == MCInit /\ [][GenNext]_<<cl, hist>>
+
+RECURSIVE SortInts(_)
+SortInts(S) == IF S = {} THEN <<>>
+               ELSE LET m == CHOOSE x \in S : \A y \in S : x <= y IN <<m>> \o SortInts(S \ {m})
+
+StOf(S) ==
+    LET ids == SortInts(Ids(S))
+        tks == SortInts(DOMAIN S.ticks)
+    IN  [pos   |-> [k \in 1..Len(ids) |-> <<ids[k], S.pos[ids[k]].own, S.pos[ids[k]].lo, S.pos[ids[k]].hi, S.pos[ids[k]].liq>>],
+         ticks |-> [k \in 1..Len(tks) |-> <<tks[k], S.ticks[tks[k]].gross, S.ticks[tks[k]].net>>],
+         cur   |-> <<S.tick, S.sqrt, S.liq>>]
+
+\* one behaviour per transition of the reduced graph (ACTION_CONSTRAINT): the calls and the state
+\* the specification expects after the last one (every proper prefix is printed by another transition)
+EmitEdge == PrintT(<<"GEN", ToJson([ops |-> hist', st |-> StOf(cl')])>>)
+\* one behaviour per distinct state (INVARIANT)
+EmitState == hist = <<>> \/ PrintT(<<"GEN", ToJson([ops |-> hist, st |-> StOf(cl)])>>)
 =============================================================================
